@@ -119,11 +119,12 @@ def prog(x, axis, G):
 """
 
 
-def verify(run, make_engine, tag_prefix="group"):
+def verify(run, make_engine, tag_prefix="group", level_inv="helper", replay_for=None):
     """Obligations (helper level) that the real bodies satisfy the contracts above."""
     for axis in (0, -1):
         for rank in (1, 2, 3, 4):
             inst = {"axis": axis, "rank": rank, "lemma": "group/ungroup contract"}
+            replay = (lambda m, sd, i=dict(inst): replay_for(m, sd, i)) if replay_for else None
             run.count_instance(**{"group_axis": axis, "group_rank": rank})
             E = make_engine()
             E.load_module(GROUP)
@@ -161,8 +162,8 @@ def verify(run, make_engine, tag_prefix="group"):
             for pi, r in enumerate(res):
                 if r.outcome == "raise":
                     # with n == G*ag the divisor check cannot fail: a raise here contradicts the contract
-                    run.add(f"{tag}/no-raise-for-divisors/path{pi}:{r.value.tname}", r.hyps, z3.BoolVal(False), "helper", inst,
-                            {"function": "group"})
+                    run.add(f"{tag}/no-raise-for-divisors/path{pi}:{r.value.tname}", r.hyps, z3.BoolVal(False), level_inv, inst,
+                            {"function": "group"}, replay=replay)
                     continue
                 nret += 1
                 g, u = r.value
@@ -173,9 +174,10 @@ def verify(run, make_engine, tag_prefix="group"):
                 root, ops = layout.chain(u)
                 rest = layout.normalise(E, root.shape, ops, r.hyps)
                 ok = (root.attrs.get("input_fn") == "X") and not rest
-                run.add(f"{tag}/ungroup-inverts-group/path{pi}", r.hyps, z3.BoolVal(bool(ok)), "helper", inst,
-                        {"function": "group/ungroup", "residual_chain": str(rest)[:300]})
-                run.add(f"{tag}/ungroup-shape/path{pi}", r.hyps, lib.shape_eq(u.shape, ds), "helper", inst, {"function": "ungroup"})
+                # layout-independent (any grouping scheme must satisfy them for dequantize(quantize(x)) to be element-wise close to x):
+                run.add(f"{tag}/ungroup-inverts-group/path{pi}", r.hyps, z3.BoolVal(bool(ok)), level_inv, inst,
+                        {"function": "group/ungroup", "residual_chain": str(rest)[:300]}, replay=replay)
+                run.add(f"{tag}/ungroup-shape/path{pi}", r.hyps, lib.shape_eq(u.shape, ds), level_inv, inst, {"function": "ungroup"}, replay=replay)
                 run.add_path_obligations([r], f"{tag}/exec", inst)
             if nret == 0:
                 run.undecide(tag, "no returning path", inst)
